@@ -417,6 +417,9 @@ impl M {
         let mut s = String::new();
         for c in ALL_COMPS.iter() {
             let k = self.comp_key(*c);
+            if *c == Comp::Cfg && k == Cfg::default().key() {
+                continue;
+            }
             if !k.is_empty() && k != "[]" && k != "false" {
                 let _ = write!(s, "{:?}={} ", c, k);
             }
